@@ -215,9 +215,8 @@ def mi_cases(draw, precision, tdtypes):
         partitions = None
         lab_pool = list(range(amax + 1))
     else:
-        k = draw(st.sampled_from([1, 2, 2, 3, 4, 5, 9, 16]))
-        start = draw(st.sampled_from([0, 0, 1, 7]))
-        stride = draw(st.sampled_from([1, 1, 2, 5]))
+        # fixed family of class lists (the per-list lookup function is compiled once per process, see vlib/dist.enable_lut_cache)
+        k, start, stride = draw(st.sampled_from([(1, 0, 1), (2, 0, 1), (2, 7, 5), (3, 0, 1), (3, 1, 2), (4, 0, 1), (5, 0, 1), (9, 0, 1), (9, 1, 1), (16, 0, 2)]))
         partitions = [start + stride * i for i in range(k)]
         lab_pool = list(partitions)
         if draw(st.booleans()):
@@ -378,7 +377,7 @@ def units(tier):
             if rep == 1 and gi >= 6:
                 continue
             us.append({'name': 'mi-%s-%s-%d' % (precision, '+'.join(tdts), rep), 'fn': 'unit_mi',
-                       'kwargs': {'precision': precision, 'tdtypes': tdts, 'n': 70 if q else 800}})
+                       'kwargs': {'precision': precision, 'tdtypes': tdts, 'n': 800 if q else 10000}})
     return us
 
 
